@@ -622,7 +622,7 @@ def c08(run, scratch):
     if cases:
         c = cases[len(cases) // 2]
         run.sample({"levels": c["levels"], "spec_typed": c["want"]["typed"]})
-    text_trace(run, scratch, "Trace_Text_typed", "typed", 150 if t else 30, 40, _c08_corrupt,
+    text_trace(run, scratch, "Trace_Text_typed", "typed", 50 if t else 30, 40, _c08_corrupt,
                lambda e: e["t"] == "typed", workers=14 if t else 10, files=SMALL_CORPUS[:2])
     # a cause chain of 3000 levels must go through typed remapping; 200000 levels are finding F8 (recursion per level)
     scale_probes(run, scratch, ["stacktrace-depth-moderate", "stacktrace-depth"], only=["typed"])
@@ -838,7 +838,7 @@ def c15(run, scratch):
         run.violation("MC_CacheIO_live", {"signature": {"step": "MC_CacheIO_live"}, "tlc": r.violation, "output": r.out[-4000:]})
     run.add_tlc("MC_CacheIO_live", r, note="temporal: every write ends (ok, err or crash) under WF, interruptions bounded")
     cases = tlc_cases(run, scratch, "MC_CacheIO_policies", "MC_CacheIO", cfg="MC_CacheIO_policies.cfg", workers=8, timeout=900)
-    args = ["--seed", run.seed, "--n", 80 if t else 20]
+    args = ["--seed", run.seed, "--n", 40 if t else 20]
     if cases:
         # B2: the fault schedules TLC enumerated for the property's sink families are replayed into the real
         # writer.  The recorded runs are judged by CacheIO!RecordedProtocol (what the property states); whether
@@ -863,6 +863,7 @@ def c15(run, scratch):
         e.pop("model", None)
         e.pop("case", None)
     validate_pure_trace(run, scratch, "Trace_CacheIO", "Trace_CacheIO", events, workers=14 if t else 10, timeout=3000,
+                        xmx="28g" if t else "6g",
                         corrupt=_c15_corrupt, canary_pred=lambda e: not e["ok"],
                         signature=lambda ev: {"ok": ev["ok"], "any_fail": ev["any_fail"]})
     # failing writes inside whole programs: what the sink had accepted is a prefix of every successful write of the
